@@ -33,8 +33,18 @@ The code mirrored is the tree WITH the commit "fix: queue made the meta-data of 
 durable before its header and body" (`storeNewMessage` fsyncs header and body before it calls
 `updateMetadataOnDisk`); the old order is kept in Props/C02 as `storeOpsUnfixed` with its
 counterexample.  Not modelled: failing file-system calls, the Windows branch of
-`updateMetadataOnDisk`, an `Abort` before `Body` (touches no file), a zero-length body (its
-`write` is not issued by `io.Copy`; a zero-length write changes nothing).
+`updateMetadataOnDisk`, an `Abort` before `Body` (touches no file).
+
+A zero-length body (header-only message): `io.Copy` issues no `Write` call for it, the body file is
+created and stays empty.  `storeOps` keeps the `write .body []`; it changes nothing
+(`C02.applyOp_write_nil`, `C02.C02_empty_write_stutter`), so the model has one more — equivalent —
+crash point than the code and the driver takes that step silently.  `openMsg` asks whether the body
+file EXISTS (`d.body.isNone`), never how long it is: an empty body file is a stored body
+(`C02.C02_empty_body_recovered`).
+
+`max_parallelism`: the steps of different ids are independent except that `dispatch` needs one of the
+`max_parallelism` delivery slots, held until the attempt's last file-system call (and the
+re-scheduling that goes with it) is done; see `C02.SysReachPar` in Props/C02.
 -/
 namespace MaddyVerif.SpoolFS
 open MaddyVerif.Queue (Addr Cls Errs Acc)
